@@ -1471,10 +1471,12 @@ pub(crate) fn warn_override(name: &RedoPath) {
 }
 
 /// Reports whether a stat-like call failed because the file does not exist: there
-/// is no such name, or a leading part of the path is not a directory (any more).
+/// is no such name, a leading part of the path is not a directory (any more), or
+/// it is a symbolic link that leads nowhere but to itself.
 fn is_gone(e: &io::Error) -> bool {
     e.kind() == io::ErrorKind::NotFound
         || e.raw_os_error() == Some(nix::errno::Errno::ENOTDIR as i32)
+        || e.raw_os_error() == Some(nix::errno::Errno::ELOOP as i32)
 }
 
 /**
